@@ -22,11 +22,6 @@ attribute [local simp] Natural.map_leaf Natural.map_cstr Natural.map_cint Natura
 
 /-! ### 1. the skeleton of a layout below a path prefix is the skeleton with every path prefixed -/
 
-/-- prefix every path of a symbolic leaf -/
-def preS (p : List String) : Sym → Sym
-  | .path q => .path (p ++ q)
-  | .app f a => .app f (preS p a)
-  | .app2 f a b => .app2 f (preS p a) (preS p b)
 
 theorem mapM_some_map {A B : Type} (f : A → B) (l : List A) : l.mapM (fun a => some (f a)) = some (l.map f) := by
   induction l with
